@@ -20,7 +20,11 @@ RULE = ("(a) one step of the real Tracker.update (EF/RK2/RK4) with a plug-in for
         "leave; new position compared with the Coq model (tolerance 1e-11) and with an independent Butcher-tableau step "
         "(oracle); (b) ladim.analytical.get_velocity1/2/4 (get_velocity2 for several s) against model and tableau; "
         "(c) end-to-end runs through the real ROMS forcing on fields that are linear in space/time, and measured order of "
-        "convergence on a dt ladder (thorough). Non-trivial = field not constant in space and time.")
+        "convergence on a dt ladder (thorough); (d) SCALE cases (c01_scale.py, always first): long runs of the real Model / "
+        "ladim.main through the ROMS forcing (1300-2200 steps, frames 1..2048 steps apart in 13-16 files, release campaigns "
+        "separated by empty periods, deaths by lifetime and at the open boundary, populations growing to 130000 particles, "
+        "cell-dependent metric, > 100000 stored instances): every particle, every step against the scheme's tableau step "
+        "with the velocity of that time (oracle only, 1e-6). Non-trivial = field not constant in space and time.")
 TRUSTED = ["Coq 8.16.1 kernel + vm_compute", "hand-written model coq/Model/Tracker.v (EF, RK2, RK4, clip, analytical helpers) tied by this correspondence",
            "convergence for arbitrary smooth fields is NOT proved (partial): tableau identity + order conditions + exactness laws are"]
 ASSUMPTIONS = ["exact rational arithmetic instead of float rounding; comparison tolerance 1e-11 relative"]
@@ -49,7 +53,10 @@ def tableau_step(tab, vel, x, y, dtdx, dtdy):
 
 def gen_cases(ctx):
     rng = ctx.rng
-    out = []
+    import c01_scale
+
+    # deterministic scale cases, always present and always first (they draw nothing from rng)
+    out = list(c01_scale.scenarios(ctx.quick))
 
     def coef(scale, nz):
         return [rng.randint(-8, 8) / 8 * scale if rng.random() < nz else 0.0 for _ in range(6)]
@@ -96,6 +103,10 @@ def gen_cases(ctx):
 
 def eval_case(desc, ctx):
     k = desc["k"]
+    if k == "scale":
+        import c01_scale
+
+        return c01_scale.eval_scale(desc, ctx)
     if k == "fstep":
         # the floating-point model of the step (Model/TrackerFloat.v): the real Tracker.update with a recording stub
         # forcing, stage positions and final position compared bit for bit (leading -9: Corr/C01All -> Corr/C01F), and
